@@ -160,8 +160,10 @@ def make_pool(asm, n, root='/nonexistent-bbc16'):
             # the constant's name also varies over spellings that look like hex digits / number fragments: a cache keyed on
             # the expression TEXT must not take `ADC` or `BEEF` for a literal
             nm = rnd.choice(['K0', 'K0', 'ADC', 'DAC', 'BEEF', 'CAFE', 'FACE', 'a', 'b', 'ab', 'A', 'x_1', 'E1', 'b_0'])
-            pool.append(dict(kind='same-names', group='sn_' + nm, src='%s = %d\nL0:\n%s    addi x5, x5, %s\n    li x6, %s + 1\n    j L0\nL1:\n    dw L1\n' % (
-                nm, v, '    nop\n' * rnd.randrange(0, 6), nm, nm)))
+            # ... in threes (the same name, three values), so that whichever history meets one of them meets the others
+            for v in rnd.sample(range(1, 30), 3):
+                pool.append(dict(kind='same-names', group='sn_' + nm, src='%s = %d\nL0:\n%s    addi x5, x5, %s\n    li x6, %s + 1\n    j L0\nL1:\n    dw L1\n' % (
+                    nm, v, '    nop\n' * rnd.randrange(0, 6), nm, nm)))
     for j, p in enumerate(pool):
         p['id'] = j
     return pool
